@@ -212,6 +212,9 @@ struct Shape {
     named: bool,
     fields: Vec<Field>,
     values: Vec<String>,
+    /// the enum also carries an enum-level format that does not mention `_variant`: it is only a default for variants
+    /// without an attribute of their own (C07), so it must not change anything for the variant under test
+    shared_default: bool,
 }
 
 impl Shape {
@@ -253,8 +256,9 @@ impl Shape {
         let al = attr_line.map(|a| format!("#[{attr}({a})]")).unwrap_or_default();
         let imp = format!("impl T {{\n    pub fn tag(&self) -> u32 {{ 7 }}\n{methods}}}\n");
         if self.is_enum {
+            let shared = if self.shared_default && attr_line.is_some() { format!("#[{attr}(\"<shared default>\")]\n") } else { String::new() };
             format!(
-                "#[derive(derive_more::{tr})]\npub enum T {{\n    {al}\n    V{decl},\n    #[{attr}(\"other\")]\n    Other,\n}}\n{imp}pub fn run(o: &mut Out) {{\n    let v = T::V{ctor};\n{run_body}}}\n"
+                "#[derive(derive_more::{tr})]\n{shared}pub enum T {{\n    {al}\n    V{decl},\n    #[{attr}(\"other\")]\n    Other,\n}}\n{imp}pub fn run(o: &mut Out) {{\n    let v = T::V{ctor};\n{run_body}}}\n"
             )
         } else {
             let semi = if self.named { "" } else { ";" };
@@ -276,7 +280,8 @@ fn gen_shape(d: &mut Dice, min: usize, max: usize, tr_idx: usize) -> Shape {
     let is_enum = d.chance(30);
     let (named, fields) = gen_fields(d, min, max);
     let values = fields.iter().enumerate().map(|(i, f)| f.kind.value(i, d)).collect();
-    Shape { tr, attr, tr_ty, is_enum, named, fields, values }
+    let shared_default = is_enum && attr != "debug" && d.chance(35);
+    Shape { tr, attr, tr_ty, is_enum, named, fields, values, shared_default }
 }
 
 fn lit_tok(s: &str) -> String {
@@ -370,7 +375,7 @@ fn build_implicit(d: &mut Dice) -> GenCase {
     let field = Field { name, member, kind };
     let vi = d.pick(8);
     let value = kind.value(vi, d);
-    let sh = Shape { tr, attr: FMT_TRAITS[tr_idx].1, tr_ty, is_enum: d.chance(40), named, fields: vec![field.clone()], values: vec![value] };
+    let sh = Shape { tr, attr: FMT_TRAITS[tr_idx].1, tr_ty, is_enum: d.chance(40), named, fields: vec![field.clone()], values: vec![value], shared_default: false };
     let g = grid_fn(tr_ty);
     let methods = format!("    pub fn __exp(&self) -> Vec<String> {{\n{}        {g}({})\n    }}\n", sh.bindings(), field.name);
     let run = format!("    let mut acc = __Acc::new();\n    acc.subst({tr_ty:?}, &{g}(&v), &v.__exp(), None);\n    acc.finish(o);\n");
@@ -413,6 +418,7 @@ fn build_subst(d: &mut Dice) -> GenCase {
         "class=subst".into(),
         format!("trait={}", sh.tr),
         format!("kind={}", if sh.is_enum { "enum" } else { "struct" }),
+        (if sh.shared_default { "enum_level_default_format" } else { "no_enum_level_format" }).to_string(),
         format!("placeholder_type={}", if ty.is_empty() { "display" } else { ty }),
         r.label.into(),
     ];
@@ -477,6 +483,9 @@ fn build_inert(d: &mut Dice) -> GenCase {
     let tr_idx = d.pick(9);
     let sh = gen_shape(d, 1, 3, tr_idx);
     let mut labels = vec!["class=inert".to_string(), format!("trait={}", sh.tr), format!("kind={}", if sh.is_enum { "enum" } else { "struct" })];
+    if sh.shared_default {
+        labels.push("enum_level_default_format".into());
+    }
     let mut lit = String::new();
     let mut args: Vec<String> = vec![];
     // (value expression, inline, kind, type letters) of the first placeholder: used to measure flag sensitivity
